@@ -9,7 +9,7 @@ import numpy as np
 from engine import bind
 
 from .assembly import build_shells
-from .common import Frame, tag
+from .common import Frame, PathLog, tag
 
 
 class OrbStub:
@@ -191,15 +191,14 @@ class DensityThreshold(DensityBase):
         dens, stub, basis, points, dm, transform = self.setup(M, shape)
         rho = M.vec("rho", (self.npts,), "opq")
         thr = M.pos("thr")
-        seen = []
+        seen = PathLog()
 
         def from_orbs(dm_, orb):
             seen.append((dm_, orb))
             return rho.copy()
 
         def body():
-            del seen[:]
-            del stub.calls[:]
+            seen.begin()  # (stub.calls accumulates over the paths: check_calls quantifies over every call)
             with self.patched(dens, stub, (dens, "evaluate_density_using_evaluated_orbs", from_orbs)):
                 return dens.evaluate_density(dm, basis, points, transform=transform, threshold=M.scalar(thr))
 
@@ -207,7 +206,7 @@ class DensityThreshold(DensityBase):
         paths = M.paths(body)
         fr.check(M, "density/all-paths")
         stub.check_calls(M, "density", basis, points, transform)
-        M.true("density/pre@from_orbs", len(seen) == 1 and seen[0][0] is dm, "density matrix forwarded")
+        M.true("density/pre@from_orbs", seen.every(lambda cs: len(cs) == 1 and cs[0][0] is dm), "density matrix forwarded (on every path)")
         srho, sthr = M.to_spec(rho), M.to_spec(thr) if not M.symbolic else thr
         threshold_rule(M, "density/threshold", paths, lambda p: [srho[n] for n in range(self.npts)], sthr)
 
@@ -350,7 +349,8 @@ class KineticDensity(DensityBase):
 
     def shapes(self, tier):
         return [dict(what="threshold", npts=1), dict(what="threshold", npts=2, transform=True), dict(what="general", nb=2, npts=1, alpha="sym"),
-                dict(what="general", nb=2, npts=2, alpha="zero"), dict(what="general-rejects")]
+                dict(what="general", nb=2, npts=2, alpha="zero"), dict(what="general", nb=2, npts=1, alpha="sym", transform=True),
+                dict(what="general", nb=2, npts=1, alpha="zero", transform=True), dict(what="general-rejects")]
 
     def run(self, shape, M):
         dens, stub, basis, points, dm, transform = self.setup(M, shape)
@@ -384,14 +384,14 @@ class KineticDensity(DensityBase):
             tau = {e: M.vec("tau%d%d%d" % e, (N,), "opq") for e in E3}
             thr = M.pos("thr")
 
-            calls = []
+            calls = PathLog()
 
             def rdm(o1, o2, dm_, basis_, points_, transform=None, deriv_type="general"):
                 calls.append((tuple(int(x) for x in o1), tuple(int(x) for x in o2), dm_, basis_, points_, transform, deriv_type))
                 return tau[tuple(int(x) for x in o1)].copy()
 
             def body():
-                del calls[:]
+                calls.begin()
                 with bind.patched((dens, "evaluate_deriv_reduced_density_matrix", rdm)):
                     return dens.evaluate_posdef_kinetic_energy_density(dm, basis, points, transform=transform, deriv_type="direct",
                                                                        threshold=M.scalar(thr))
@@ -399,8 +399,8 @@ class KineticDensity(DensityBase):
             fr = Frame(dm=dm, points=points, **{"tau%d" % i: tau[e] for i, e in enumerate(E3)})
             paths = M.paths(body)
             fr.check(M, "posdef_ked/all-paths")
-            M.true("posdef_ked/pre@reduced_dm", sorted(c[0] for c in calls) == sorted(E3) and all(c[0] == c[1] and c[2] is dm and c[3] is basis
-                   and c[4] is points and c[5] is transform and c[6] == "direct" for c in calls),
+            M.true("posdef_ked/pre@reduced_dm", calls.every(lambda cs: sorted(c[0] for c in cs) == sorted(E3) and all(c[0] == c[1] and c[2] is dm and c[3] is basis
+                   and c[4] is points and c[5] is transform and c[6] == "direct" for c in cs)),
                    "one call per axis with equal first-derivative orders; density matrix, basis, points, transform, back-end forwarded")
             st = {e: M.to_spec(tau[e]) for e in E3}
             vals = [(st[E3[0]][n] + st[E3[1]][n] + st[E3[2]][n]) * half for n in range(N)]
@@ -419,8 +419,7 @@ class KineticDensity(DensityBase):
                 calls.append(("l", dm_, basis_, points_, transform, deriv_type, {}))
                 return lap.copy()
 
-            def body():
-                del calls[:]
+            def body():  # `calls` accumulates over all explored paths: the callee preconditions hold on each of them
                 with bind.patched((dens, "evaluate_posdef_kinetic_energy_density", posdef), (dens, "evaluate_density_laplacian", lapl)):
                     return dens.evaluate_general_kinetic_energy_density(dm, basis, points, M.scalar(alpha) if shape["alpha"] == "sym" else 0,
                                                                         transform=transform, deriv_type="direct")
@@ -435,7 +434,7 @@ class KineticDensity(DensityBase):
                 for n in range(N):
                     M.implies("general_ked/path%d/out%s" % (k, tag((n,))), p, M.atom(p.outcome[n], "==", skin[n] + slap[n] * sal))
             M.true("general_ked/pre@callees", all(c[1] is dm and c[2] is basis and c[3] is points and c[4] is transform and c[5] == "direct" for c in calls)
-                   and len(calls) >= 1, "arguments, transform and back-end forwarded")
+                   and len(calls) >= len(paths), "arguments, transform and back-end forwarded (every call on every path)")
         else:
             with self.patched(dens, stub):
                 M.raises("general_ked/rejects/alpha-type", lambda: dens.evaluate_general_kinetic_energy_density(dm, basis, points, "1"), TypeError)
@@ -482,14 +481,14 @@ class ThresholdAnyN(DensityBase):
             def call():
                 return dens.evaluate_posdef_kinetic_energy_density(dm, basis, points, threshold=M.scalar(thr))
 
-        seen = []
+        seen = PathLog()
 
         def min_contract(arr, *a, **k):
             seen.append(arr)
             return mval
 
         def body():
-            del seen[:]
+            seen.begin()
             with self.patched(dens, stub, *patches), bind.patched((bind.PROXY, "min", min_contract), (bind.PROXY, "amin", min_contract)) if M.symbolic else _np_min_patch(dens, min_contract):
                 return call()
 
@@ -505,7 +504,7 @@ class ThresholdAnyN(DensityBase):
             return  # the abstraction has no native counterpart: the N = 1, 2, 3 harnesses are replayed natively instead
         # contract of min: the array it is applied to holds (a positive multiple of) the returned values, and m <= each
         paths = M.paths(body, assumptions=[])
-        M.true("threshold_anyN/pre@min", len(seen) == 1, "numpy min asked once")
+        M.true("threshold_anyN/pre@min", seen.every(lambda cs: len(cs) == 1), "numpy min asked once (on every path)")
         import numpy as _np
 
         arr = seen[0] if seen else None
